@@ -192,8 +192,15 @@ func (vc *VC) solveOne(o *Obl, enabled map[string]bool, opts SolveOpts, stats *S
 	if opts.TimeoutS < quickT {
 		quickT = opts.TimeoutS
 	}
-	st, out, secs := runSolver(fastSolver, file, quickT)
-	record(fastSolver.Name, st, out, secs)
+	var st, out string
+	var secs float64
+	if opts.Houdini {
+		// the incremental E-matching pass already failed on this one
+		st = "unknown"
+	} else {
+		st, out, secs = runSolver(fastSolver, file, quickT)
+		record(fastSolver.Name, st, out, secs)
+	}
 	o.Status, o.Backend, o.Ms = st, fastSolver.Name, int64(secs*1000)
 	if opts.Houdini {
 		if st != "unsat" {
@@ -207,7 +214,7 @@ func (vc *VC) solveOne(o *Obl, enabled map[string]bool, opts SolveOpts, stats *S
 			for _, s := range []Solver{solvers[0], solvers[1]} {
 				s := s
 				go func() {
-					st2, out2, secs2 := runSolver(s, file, 2)
+					st2, out2, secs2 := runSolver(s, file, 1)
 					ch <- ans{s.Name, st2, out2, secs2}
 				}()
 			}
